@@ -418,6 +418,10 @@ def _try_inline(st: ast.stmt, cands, caller, ccls, caller_locals) -> tuple[str, 
         call, form = _call_of(st.value), "assign"
     elif isinstance(st, ast.AnnAssign) and st.value is not None and isinstance(st.target, ast.Name):
         call, form = _call_of(st.value), "assign"
+    elif isinstance(st, ast.If):
+        # `if helper(...):` / `if not helper(...):` - the helper's returns select the branch
+        t_ = st.test.operand if isinstance(st.test, ast.UnaryOp) and isinstance(st.test.op, ast.Not) else st.test
+        call, form = _call_of(t_), "if"
     if call is None:
         return None
     cn = _callee_name(call)
@@ -427,7 +431,11 @@ def _try_inline(st: ast.stmt, cands, caller, ccls, caller_locals) -> tuple[str, 
     _dbody, fn, dcls, kind = cands[name]
     if dcls is not None and dcls is not ccls:
         return None
-    awaited = isinstance(getattr(st, "value", None), ast.Await)
+    if form == "if":
+        t_ = st.test.operand if isinstance(st.test, ast.UnaryOp) and isinstance(st.test.op, ast.Not) else st.test
+        awaited = isinstance(t_, ast.Await)
+    else:
+        awaited = isinstance(getattr(st, "value", None), ast.Await)
     if isinstance(fn, ast.AsyncFunctionDef) != awaited:
         return None
     if isinstance(fn, ast.AsyncFunctionDef) and not isinstance(caller, ast.AsyncFunctionDef):
@@ -440,7 +448,11 @@ def _try_inline(st: ast.stmt, cands, caller, ccls, caller_locals) -> tuple[str, 
     if not body:
         return None
     tail_form = False
-    if form != "return":
+    if form == "if":
+        if not rets or any(r.value is None for r in rets) or _tail_convert(body, lambda v, at: [ast.copy_location(ast.Pass(), at)]) is None:
+            return None
+        tail_form = True
+    elif form != "return":
         # the helper must fall through: its only return (if any) is the last statement - or every return sits in tail position of an
         # if/else tree, in which case each `return e` becomes the assignment / nothing and the tree is kept
         if any(r is not body[-1] for r in rets):
@@ -468,6 +480,13 @@ def _try_inline(st: ast.stmt, cands, caller, ccls, caller_locals) -> tuple[str, 
     new_body = [_Rename(sub).visit(copy.deepcopy(s)) for s in body]
 
     def mk_assign(value: ast.expr | None, at: ast.AST) -> list[ast.stmt]:
+        if form == "if":
+            negated = isinstance(st.test, ast.UnaryOp)
+            then_, else_ = (st.orelse, st.body) if negated else (st.body, st.orelse)
+            if isinstance(value, ast.Constant) and isinstance(value.value, bool):
+                chosen = then_ if value.value else else_
+                return copy.deepcopy(chosen) or [ast.copy_location(ast.Pass(), at)]
+            return [ast.copy_location(ast.If(test=value, body=copy.deepcopy(then_) or [ast.copy_location(ast.Pass(), at)], orelse=copy.deepcopy(else_)), at)]
         if form == "expr":
             return [ast.copy_location(ast.Expr(value=value), at)] if value is not None and not _pure(value) else []
         if isinstance(st, ast.Assign):
